@@ -50,6 +50,8 @@ for pid, text, tech in [
      "property-based testing: metamorphic relation over bookkeeping flags and entry points (Hypothesis)"),
     ("C14", "Generated-input search: Hypothesis-drawn documents written one keyword per line with unique comments at claimed and unclaimed placements, and corpus files with their own comments (independent scanner cross-checked against the lexer callback); oracle: multiset verbatim/no-duplication check with backtracking, content equality with the comment-free pipeline, placement predicates on a comment-blanked copy of the output.",
      "property-based testing: independent comment scanner, multiset and placement oracles (Hypothesis)"),
+    ("C03", "Generated-input search over dictionaries (loaded, built through the dict API, created) and, with a Hypothesis rule-based state machine, over histories of dict-API edits; oracle: an independent character-level reader of the printed text whose event stream must equal the events and MapServer lexical classes derived from the dictionary and the schema slot of each value; mappyfile's parser is never used.",
+     "property-based / model-based testing: independent reader oracle, Hypothesis stateful machine for edit histories"),
     ("C16", DOC + "oracle: an independent reader of the printed text checks the layout contract line by line.",
      "property-based testing: independent reader / validity predicate over documents x option sets (Hypothesis)"),
     ("C17", "Exhaustive breadth-first exploration of every reachable state over a small key/value alphabet with every operation applied in every state, exhaustive operation sequences from the empty dict up to a length bound, and a Hypothesis rule-based state machine for long histories; oracle: reference model (OrderedDict keyed by lower-cased keys + default rule).",
